@@ -507,7 +507,8 @@ class GraphStream(Stream):
 
     def to_coq(self, case, obs):
         tasks = q.lst(
-            "mkTd %s %s %s" % (KINDS[t["kind"]], q.N(t["at"] or 0), q.lst(_q_step(s) for s in t["steps"])) for t in case["tasks"])
+            "mkTd %s %s %s" % (KINDS[t["kind"]], q.N(2 ** 40 if t["kind"] == "csvc" else (t["at"] or 0)), q.lst(_q_step(s) for s in t["steps"]))
+            for t in case["tasks"])
         cbs = q.lst("mkCd %s %s" % (q.N(cb["sleep"]), q.boolean(cb["raise"])) for cb in case["cbs"])
         faults = q.lst("mkF %s (%s) %s" % (q.N(f["task"]), ("FStep %s" if f["pt"][0] == "step" else "FCb %s") % q.N(f["pt"][1]), q.N(f["off"]))
                        for f in case.get("faults", []))
